@@ -999,6 +999,13 @@ func (vc *VC) run() (err error) {
 		vc.assume(f)
 		_ = i
 	}
+	for _, c := range vc.spec.Captures {
+		// proved where the closure is created (obligation closure.captures in the creating function), and stable:
+		// only write-once captured variables, their len/cap and constants may be mentioned
+		f := env.evalBool(c.E)
+		env.flushSide("")
+		vc.assume(f)
+	}
 	vc.curBlock = fn.Blocks[0]
 	o := vc.oblige("vacuity.requires", "", "true", "true", "precondition is satisfiable")
 	o.expect = "sat"
